@@ -79,6 +79,35 @@ class C04(Prop):
         out = []
         for c in range(n):
             kind = rng.choice(["dna", "dna", "dna", "rna", "amino"])
+            if rng.random() < 0.12:
+                # ReadBlock long-target stream: records that leave 0,1,2,3,... residues free in a block before a long record, requested
+                # context smaller / equal / larger than the carried-over piece, max_init_window on and off
+                kind = rng.choice(["dna", "rna"])
+                mr = rng.choice([16, 64, 100, 257])
+                ctxv = rng.choice([0, 1, max(1, mr // 20), 10, 20, 40, mr, mr + 7])
+                ini = rng.choice([0, 0, 1])
+                lens = []
+                for _ in range(rng.choice([2, 3, 4])):
+                    lens.append(max(0, mr - rng.choice([0, 1, 2, 3, 4, 5, 8, mr // 2])) if rng.random() < 0.6 else rng.randrange(0, 2 * mr))
+                    lens.append(rng.choice([mr, 2 * mr, 3 * mr + 1, 10 * mr, rng.randrange(mr, 12 * mr)]))
+                used = set()
+                w = rng.choice([60, 60, 25, 200])
+                txt, recs_ = "", []
+                for L in lens:
+                    sq_ = S.rand_residues(rng, L, kind)
+                    nm = S.rand_name(rng, used)
+                    txt += ">" + nm + "\n" + "".join(sq_[k:k + w] + "\n" for k in range(0, L, w))
+                    recs_.append(sq_)
+                data = txt.encode("latin-1")
+                total = sum(lens)
+                ops = ["file ext=fa hex=" + hx(data), "open fmt=fasta abc=%s B=4096" % kind] + ["read"] * (len(lens) + 1) + ["close"]
+                for s_ in range(rng.choice([1, 2])):
+                    ops.append("open fmt=fasta abc=%s B=%d" % (kind, rng.choice(S.BSIZES)))
+                    ncalls = min(400, total // max(1, mr // 20 if not ini else mr) + 2 * len(lens) + 4)
+                    ops += ["readblock list=%d maxres=%d maxseq=%d init=%d long=1 ctx=%d" % (rng.choice([1, 2, 3, 8]), mr, rng.choice([-1, -1, 1, 2]), ini, ctxv)] * ncalls
+                    ops.append("close")
+                out.append({"name": "blockstream%d" % c, "ops": ops, "sticky": 1, "meta": {"kind": kind, "geom": "blockstream", "nrec": len(lens)}})
+                continue
             layout = rng.random() < 0.45
             if layout:
                 # constant geometry with 0..3 extra ignorable bytes per line: every window start column, both strands
